@@ -32,6 +32,8 @@ type Net struct {
 	// OnModifyOpen, if set, may wrap the server-side stream (fault middleboxes).
 	WrapModify func(spb.GRIBI_ModifyServer) spb.GRIBI_ModifyServer
 	WrapGet    func(spb.GRIBI_GetServer) spb.GRIBI_GetServer
+	// FlushHook, if set, intercepts Flush calls (next invokes the real handler).
+	FlushHook func(ctx context.Context, req *spb.FlushRequest, next func() (*spb.FlushResponse, error)) (*spb.FlushResponse, error)
 	// MutateReq, if set, is applied to every client->server Modify message in flight.
 	MutateReq func(*spb.ModifyRequest) *spb.ModifyRequest
 }
@@ -409,7 +411,13 @@ func (n *Net) Flush(ctx context.Context, in *spb.FlushRequest, opts ...grpc.Call
 	var resp *spb.FlushResponse
 	req := clone(in)
 	simrt.Go("simnet.Flush", func() {
-		r, err := n.Srv.Flush(st.ctx, req)
+		var r *spb.FlushResponse
+		var err error
+		if n.FlushHook != nil {
+			r, err = n.FlushHook(st.ctx, req, func() (*spb.FlushResponse, error) { return n.Srv.Flush(st.ctx, req) })
+		} else {
+			r, err = n.Srv.Flush(st.ctx, req)
+		}
 		resp = r
 		st.finish(err)
 	})
